@@ -1,0 +1,29 @@
+//go:build verif
+
+// Contracts for govc (contract-based deductive verification, /verif). Comment-only file:
+// it is compiled only under the build tag "verif" and contains no code.
+
+package bal_gslb
+
+// ---- C02: hash-based sub-cluster selection splits the hash space in proportion to the weights ----
+
+// total of the positive weights among the first n sub-clusters
+//@ spec pwsum(subs SubClusterList, n int) int := n <= 0 ? 0 : pwsum(subs, n-1) + (subs[n-1].weight > 0 ? subs[n-1].weight : 0)
+//@ spec wfSubs(subs SubClusterList) bool := len(subs) <= 1000000 && (forall k int :: 0 <= k && k < len(subs) ==> subs[k] != nil && subs[k].weight <= 1099511627776)
+//@ spec wfGslb(bal *BalanceGslb) bool := wfSubs(bal.subClusters) && 0 <= bal.totalWeight && bal.totalWeight <= 1099511627776000000 && bal.totalWeight == pwsum(bal.subClusters, len(bal.subClusters)) && (bal.single ==> 0 <= bal.avail && bal.avail < len(bal.subClusters) && bal.subClusters[bal.avail].weight > 0 && pwsum(bal.subClusters, bal.avail) == 0 && bal.subClusters[bal.avail].weight == bal.totalWeight && (forall k int :: 0 <= k && k < len(bal.subClusters) && k != bal.avail ==> bal.subClusters[k].weight <= 0))
+
+//@ func (*BalanceGslb).subClusterBalance
+//@   props C02,C03
+//@   nopanic
+//@   requires bal != nil ==> wfGslb(bal)
+//@   note sub-cluster weights are assumed bounded by 2^40 and the list by 10^6 entries (no int overflow in the running sums); totalWeight/single/avail are the cached summary that Init/Reload compute (Reload's part is proved below)
+//@   modifies nothing
+//@   let subs := bal.subClusters
+//@   let N := len(bal.subClusters)
+//@   ensures[error_iff_nothing_to_choose_from] (result1 != nil) == (bal == nil || bal.totalWeight == 0)
+//@   ensures[chosen_sub_cluster_is_a_member_with_positive_weight] result1 == nil ==> (exists m int :: 0 <= m && m < N && result0 == subs[m] && subs[m].weight > 0)
+//@   ensures[each_sub_cluster_owns_a_hash_interval_as_long_as_its_weight] result1 == nil && value != nil ==> (exists m int :: 0 <= m && m < N && result0 == subs[m] && subs[m].weight > 0 && pwsum(subs, m) <= int(keyHash(value) % uint64(bal.totalWeight)) && int(keyHash(value) % uint64(bal.totalWeight)) < pwsum(subs, m) + subs[m].weight)
+//@   let h := int(keyHash(value) % uint64(bal.totalWeight))
+//@   loop 1 invariant[count] 0 <= i && i <= N
+//@   loop 1 invariant[w_is_the_hash_minus_the_intervals_passed] value != nil ==> w == h - pwsum(subs, i)
+//@   loop 1 invariant[not_yet_found] 0 <= w && w < bal.totalWeight - pwsum(subs, i)
